@@ -20,14 +20,14 @@ def gen_configs(rng, n, quick=True, evaluators=("map",), names=None, kinds=None,
         kind = kinds[(i // len(names)) % len(kinds)] if rng.random() < 0.7 else rng.choice(kinds)
         i += 1
         nobjs = rng.choice(nobjs_choices)
-        if "single" in tracer.ALGOS[name][1]:
+        if "single" in tracer.ALL_ALGOS[name][1]:
             nobjs = 1
-        elif "multi" in tracer.ALGOS[name][1] and nobjs < 2:
+        elif "multi" in tracer.ALL_ALGOS[name][1] and nobjs < 2:
             nobjs = 2
-        if "real" in tracer.ALGOS[name][1]:
+        if "real" in tracer.ALL_ALGOS[name][1]:
             kind = "real"
         ncon = rng.choice([1, 2, 3]) if rng.random() < constrained_rate else 0
-        if "unconstrained" in tracer.ALGOS[name][1]:
+        if "unconstrained" in tracer.ALL_ALGOS[name][1]:
             ncon = 0
         dirs = [rng.random() < 0.35 for _ in range(nobjs)]
         if name in ("MOEAD", "NSGAIII"):
